@@ -53,3 +53,10 @@ claim("C23", "code-point class partition + abstract interpretation of writer.str
       "(bit provenance in the BMP, 0x10000+y above) and the appended pieces are lexed by Java's rules: raw/backslash/named/unicode escapes must denote exactly the UTF-16 code unit(s), "
       "four nibble digits per \\u, none for LF/CR/quote/backslash, surrogate pair for supplementary characters. visit_constant must route through string().",
       "Trusted: agstatic domains; JLS 3.3/3.10.5/3.10.6 rules and Python's unicode-escape for TAB/LF/CR as transcribed in the rule; string() is a per-character map.")
+
+claim("C02", "abstract interpretation of the sweep dispatch over the 16-bit unit domain + loop-progress CFG rule + payload constructors interpreted over symbolic buffers",
+      "Dispatch: every first code unit (thorough: all 65536 x ODEX on/off; quick: all low bytes x one representative per distinguishable high-byte class) must be routed to the decoder the Dalvik format assigns, independent of position. "
+      "Termination: every path round the loop passes idx += get_length() and every reachable get_length() has interval >= 2. Payloads: constructor bytes consumed == get_length() == len(get_raw()), get_raw() reproduces every input bit, "
+      "and a buffer shorter than the payload makes the constructor raise.",
+      "Trusted: agstatic interpreter and bit domain; payload size agreement is checked on a grid of sizes and extended to all sizes by a syntactic fragment check (affine with parity). "
+      "Not decided: equality of the yielded stream with an assembled program.")
